@@ -1203,9 +1203,13 @@ impl<'a> CExec<'a> {
             Value(Value),
         }
         let need_place: Vec<bool> = (0..args.len()).map(|i| viable.iter().any(|f| self.funcs[*f].params[i].mode != PassMode::In)).collect();
+        // (Metal / C++: an array parameter aliases an lvalue argument)
+        let decays: Vec<bool> = (0..args.len()).map(|i| self.dialect == Dialect::Msl && viable.iter().any(|f| matches!(self.funcs[*f].params[i].ty, CTy::Array(..)) && self.funcs[*f].params[i].mode == PassMode::In)).collect();
         let mut evaluated = Vec::new();
         for (i, a) in args.iter().enumerate() {
-            if need_place[i] {
+            if decays[i] && !need_place[i] && matches!(a.node, ast::Expression::Identifier(_) | ast::Expression::Member(..) | ast::Expression::ArraySubscript(..)) {
+                evaluated.push(Arg::Place(self.eval_place(&a.node)?));
+            } else if need_place[i] {
                 evaluated.push(Arg::Place(self.eval_place(&a.node)?));
             } else {
                 evaluated.push(Arg::Value(self.eval(&a.node)?));
@@ -1255,6 +1259,10 @@ impl<'a> CExec<'a> {
                     (Arg::Value(v), PassMode::In) => {
                         let v = self.convert_to(v.clone(), &p.ty)?;
                         Binding::Cell(self.alloc(v, p.ty.clone()))
+                    }
+                    (Arg::Place(pl), PassMode::In) if self.dialect == Dialect::Msl && matches!(p.ty, CTy::Array(..)) && self.place_type(pl) == p.ty => {
+                        // C++: a parameter declared as an array is a pointer to the caller's array, not a copy of it
+                        Binding::Ref(pl.clone())
                     }
                     (Arg::Place(pl), PassMode::In) => {
                         let v = self.load(pl)?;
@@ -1717,7 +1725,14 @@ impl<'a> CExec<'a> {
                 return unsup(format!("local of type {}", qualified(&def.local_type.layout.0)));
             }
             let v = match &d.init {
-                Some(init) => self.initializer(init, &ty)?,
+                Some(init) => {
+                    // the C++ point of declaration: the name is in scope in its own initialiser, where it hides an outer
+                    // entity of the same name and holds an indeterminate value
+                    if let Ok(u) = self.undef(&ty) {
+                        self.declare(&name, u, ty.clone());
+                    }
+                    self.initializer(init, &ty)?
+                }
                 None => self.undef(&ty)?,
             };
             self.declare(&name, v, ty);
